@@ -59,7 +59,8 @@ StepReq(cfg, shift, table, names, r) ==
                /\ (h.hit = 1) = hit
       names2 == IF cat = 0 THEN Upd(names, h.qhash, r.stream) ELSE names
   IN
-  IF ~keyOk THEN [bad |-> {"C27"}, table |-> table, names |-> names]
+  \* a response put into the wrong category is limited by the wrong rate: that is C26's concern as much as C27's
+  IF ~keyOk THEN [bad |-> IF h.cat # cat THEN {"C26", "C27"} ELSE {"C27"}, table |-> table, names |-> names]
   ELSE IF ~hit THEN
      [bad |-> IF h.action = "new" /\ h.after = 1 /\ r.out = "resp" /\ r.resp = r.direct THEN {} ELSE {"C26"},
       table |-> Upd(table, h.idx, [key |-> key, count |-> 1, ls0 |-> s0, lu0 |-> u0, ls1 |-> s1, lu1 |-> u1]),
